@@ -1090,10 +1090,10 @@ Qed.
 (* ------------------------------------------------------------------ *)
 (* both directions with half-close                                      *)
 
-Lemma dstep_dead p q l : forall s, d_alive s = false -> fold_left (dstep p q) l s = s.
+Lemma dstep_dead p l : forall s, d_alive s = false -> fold_left (dstep p) l s = s.
 Proof.
   induction l as [|e r IH]; intros s H; [reflexivity|]. cbn [fold_left].
-  assert (E : dstep p q s e = s) by (unfold dstep; rewrite H; reflexivity). rewrite E. apply IH, H.
+  assert (E : dstep p s e = s) by (unfold dstep; rewrite H; reflexivity). rewrite E. apply IH, H.
 Qed.
 
 Lemma ups_app a b : ups (a ++ b) = ups a ++ ups b.
@@ -1102,96 +1102,160 @@ Lemma downs_app a b : downs (a ++ b) = downs a ++ downs b.
 Proof. apply flat_map_app. Qed.
 
 (* exactly what was written before the relay stops is delivered, in both directions *)
-Lemma duplex_gen p q l : forall s, d_alive s = true ->
-  d_up (fold_left (dstep p q) l s) = d_up s ++ ups (before_stop p q l) /\
-  d_down (fold_left (dstep p q) l s) = d_down s ++ downs (before_stop p q l).
+Lemma duplex_gen p l : forall s, d_alive s = true ->
+  d_up (fold_left (dstep p) l s) = d_up s ++ ups (until_stop p (d_cdone s) (d_bdone s) l) /\
+  d_down (fold_left (dstep p) l s) = d_down s ++ downs (until_stop p (d_cdone s) (d_bdone s) l).
 Proof.
-  induction l as [|e r IH]; intros s H; cbn [fold_left before_stop].
+  induction l as [|e r IH]; intros s H; cbn [fold_left until_stop].
   - cbn. rewrite !app_nil_r. split; reflexivity.
   - unfold dstep at 2 4. rewrite H.
-    destruct e as [c| |c|]; cbn [stops].
-    + destruct (IH (mkDst true (d_up s ++ c) (d_down s) (d_beof s) (d_ceof s)) eq_refl) as [A B].
-      rewrite A, B. cbn [d_up d_down]. unfold ups, downs. cbn [flat_map app]. rewrite <- app_assoc. split; reflexivity.
-    + destruct p.
+    destruct e as [c| |c|].
+    + destruct (IH (mkDst true (d_up s ++ c) (d_down s) (d_cdone s) (d_bdone s)) eq_refl) as [A B].
+      rewrite A, B. cbn [d_up d_down d_cdone d_bdone]. unfold ups, downs. cbn [flat_map app]. rewrite <- app_assoc. split; reflexivity.
+    + destruct (stops_now p true (d_bdone s)) eqn:E; cbn [negb].
       * rewrite dstep_dead by reflexivity. cbn. rewrite !app_nil_r. split; reflexivity.
-      * destruct (IH (mkDst true (d_up s) (d_down s) true (d_ceof s)) eq_refl) as [A B].
-        rewrite A, B. cbn [d_up d_down]. split; reflexivity.
-    + destruct (IH (mkDst true (d_up s) (d_down s ++ c) (d_beof s) (d_ceof s)) eq_refl) as [A B].
-      rewrite A, B. cbn [d_up d_down]. unfold ups, downs. cbn [flat_map app]. rewrite <- app_assoc. split; reflexivity.
-    + destruct q.
+      * destruct (IH (mkDst true (d_up s) (d_down s) true (d_bdone s)) eq_refl) as [A B].
+        rewrite A, B. cbn [d_up d_down d_cdone d_bdone]. split; reflexivity.
+    + destruct (IH (mkDst true (d_up s) (d_down s ++ c) (d_cdone s) (d_bdone s)) eq_refl) as [A B].
+      rewrite A, B. cbn [d_up d_down d_cdone d_bdone]. unfold ups, downs. cbn [flat_map app]. rewrite <- app_assoc. split; reflexivity.
+    + destruct (stops_now p (d_cdone s) true) eqn:E; cbn [negb].
       * rewrite dstep_dead by reflexivity. cbn. rewrite !app_nil_r. split; reflexivity.
-      * destruct (IH (mkDst true (d_up s) (d_down s) (d_beof s) true) eq_refl) as [A B].
-        rewrite A, B. cbn [d_up d_down]. split; reflexivity.
+      * destruct (IH (mkDst true (d_up s) (d_down s) (d_cdone s) true) eq_refl) as [A B].
+        rewrite A, B. cbn [d_up d_down d_cdone d_bdone]. split; reflexivity.
 Qed.
 
-Lemma duplex_spec p q l :
-  d_up (duplex_run p q l) = ups (before_stop p q l) /\ d_down (duplex_run p q l) = downs (before_stop p q l).
-Proof. unfold duplex_run. destruct (duplex_gen p q l dst0 eq_refl) as [A B]. rewrite A, B. split; reflexivity. Qed.
+Lemma duplex_spec p l :
+  d_up (duplex_run p l) = ups (until_stop p false false l) /\ d_down (duplex_run p l) = downs (until_stop p false false l).
+Proof. unfold duplex_run. destruct (duplex_gen p l dst0 eq_refl) as [A B]. rewrite A, B. split; reflexivity. Qed.
 
 (* never anything but a prefix of what was written *)
-Lemma before_stop_prefix p q l : exists rest, l = before_stop p q l ++ rest.
+Lemma until_stop_prefix p l : forall c b, exists rest, l = until_stop p c b l ++ rest.
 Proof.
-  induction l as [|e r [rest IH]]; [exists []; reflexivity|]. cbn [before_stop].
-  destruct (stops p q e); [exists (e :: r); reflexivity|]. exists rest. cbn [app]. rewrite <- IH. reflexivity.
+  induction l as [|e r IH]; intros c b; [exists []; reflexivity|]. cbn [until_stop].
+  destruct e as [x| |x|].
+  - destruct (IH c b) as [rest E]. exists rest. cbn [app]. rewrite <- E. reflexivity.
+  - destruct (stops_now p true b); [exists (DCEof :: r); reflexivity|].
+    destruct (IH true b) as [rest E]. exists rest. cbn [app]. rewrite <- E. reflexivity.
+  - destruct (IH c b) as [rest E]. exists rest. cbn [app]. rewrite <- E. reflexivity.
+  - destruct (stops_now p c true); [exists (DBEof :: r); reflexivity|].
+    destruct (IH c true) as [rest E]. exists rest. cbn [app]. rewrite <- E. reflexivity.
 Qed.
 
-Lemma duplex_prefix p q l :
-  (exists x, ups l = d_up (duplex_run p q l) ++ x) /\ (exists y, downs l = d_down (duplex_run p q l) ++ y).
+Lemma duplex_prefix p l :
+  (exists x, ups l = d_up (duplex_run p l) ++ x) /\ (exists y, downs l = d_down (duplex_run p l) ++ y).
 Proof.
-  destruct (duplex_spec p q l) as [A B]. destruct (before_stop_prefix p q l) as [rest E].
+  destruct (duplex_spec p l) as [A B]. destruct (until_stop_prefix p l false false) as [rest E].
   split; [exists (ups rest); rewrite A, <- ups_app, <- E|exists (downs rest); rewrite B, <- downs_app, <- E]; reflexivity.
 Qed.
 
-(* a side writes nothing after it has ended its own direction *)
-Fixpoint b_quiet_after_eof (l : list dev) : Prop :=
-  match l with [] => True | DBEof :: r => downs r = [] | _ :: r => b_quiet_after_eof r end.
-(* the client has written everything before the backend ends its direction *)
+(* once both sides have ended their directions nothing can follow; once the backend has, no backend data *)
+Lemma sched_ok_done l : sched_ok true true l -> l = [].
+Proof. destruct l as [|[x| |x|] r]; cbn [sched_ok]; intros H; [reflexivity| | | |]; destruct H; discriminate. Qed.
+
+Lemma sched_ok_bdone l : forall c, sched_ok c true l -> downs l = [].
+Proof.
+  induction l as [|e r IH]; intros c H; [reflexivity|].
+  destruct e as [x| |x|]; cbn [sched_ok] in H; destruct H as [H1 H2]; try discriminate.
+  - unfold downs in *. cbn [flat_map app]. apply (IH c H2).
+  - unfold downs in *. cbn [flat_map app]. apply (IH true H2).
+Qed.
+
+Lemma sched_ok_cdone l : forall b, sched_ok true b l -> ups l = [].
+Proof.
+  induction l as [|e r IH]; intros b H; [reflexivity|].
+  destruct e as [x| |x|]; cbn [sched_ok] in H; destruct H as [H1 H2]; try discriminate.
+  - unfold ups in *. cbn [flat_map app]. apply (IH b H2).
+  - unfold ups in *. cbn [flat_map app]. apply (IH true H2).
+Qed.
+
+(* copy: the relay goes on until BOTH directions have ended, so everything written in
+   either direction is delivered whatever the order in which the directions end *)
+Lemma until_stop_both_all l : forall c b, sched_ok c b l ->
+  ups (until_stop StopBoth c b l) = ups l /\ downs (until_stop StopBoth c b l) = downs l.
+Proof.
+  induction l as [|e r IH]; intros c b H; [split; reflexivity|].
+  destruct e as [x| |x|]; cbn [sched_ok] in H; destruct H as [H1 H2]; cbn [until_stop stops_now].
+  - destruct (IH c b H2) as [A B]. unfold ups, downs in *. cbn [flat_map app]. rewrite A, B. split; reflexivity.
+  - cbn [andb]. destruct b.
+    + rewrite (sched_ok_done r H2). split; reflexivity.
+    + destruct (IH true false H2) as [A B]. unfold ups, downs in *. cbn [flat_map app]. split; assumption.
+  - destruct (IH c b H2) as [A B]. unfold ups, downs in *. cbn [flat_map app]. rewrite A, B. split; reflexivity.
+  - destruct c; cbn [andb].
+    + rewrite (sched_ok_done r H2). split; reflexivity.
+    + destruct (IH false true H2) as [A B]. unfold ups, downs in *. cbn [flat_map app]. split; assumption.
+Qed.
+
+Lemma copy_duplex_complete l : sched_ok false false l ->
+  d_up (copy_duplex l) = ups l /\ d_down (copy_duplex l) = downs l.
+Proof.
+  intros H. unfold copy_duplex. destruct (duplex_spec StopBoth l) as [-> ->]. apply until_stop_both_all, H.
+Qed.
+
+(* copy stops exactly when both directions have ended *)
+Definition is_ceof (e : dev) : bool := match e with DCEof => true | _ => false end.
+Definition is_beof (e : dev) : bool := match e with DBEof => true | _ => false end.
+
+Lemma copy_alive_gen l : forall s, d_alive s = true -> (d_cdone s && d_bdone s = false) ->
+  sched_ok (d_cdone s) (d_bdone s) l ->
+  d_alive (fold_left (dstep StopBoth) l s) = negb ((d_cdone s || existsb is_ceof l) && (d_bdone s || existsb is_beof l)).
+Proof.
+  induction l as [|e r IH]; intros s Ha Hn Hok; cbn [fold_left existsb].
+  - rewrite !orb_false_r, Hn, Ha. reflexivity.
+  - unfold dstep at 2. rewrite Ha.
+    destruct e as [x| |x|]; cbn [sched_ok] in Hok; destruct Hok as [H1 H2]; cbn [is_ceof is_beof orb stops_now].
+    + rewrite (IH (mkDst true (d_up s ++ x) (d_down s) (d_cdone s) (d_bdone s)) eq_refl Hn H2). reflexivity.
+    + rewrite H1 in *. cbn [orb andb] in *. destruct (d_bdone s) eqn:B; cbn [andb negb orb].
+      * rewrite dstep_dead by reflexivity. reflexivity.
+      * rewrite (IH (mkDst true (d_up s) (d_down s) true false) eq_refl eq_refl H2). cbn [d_cdone d_bdone orb]. reflexivity.
+    + rewrite (IH (mkDst true (d_up s) (d_down s ++ x) (d_cdone s) (d_bdone s)) eq_refl Hn H2). reflexivity.
+    + rewrite H1 in *. destruct (d_cdone s) eqn:C; cbn [andb negb orb].
+      * rewrite dstep_dead by reflexivity. cbn [d_alive orb andb negb]. reflexivity.
+      * rewrite (IH (mkDst true (d_up s) (d_down s) false true) eq_refl eq_refl H2). cbn [d_cdone d_bdone orb andb].
+        reflexivity.
+Qed.
+
+Lemma copy_stops_when_both_ended l : sched_ok false false l ->
+  d_alive (copy_duplex l) = negb (existsb is_ceof l && existsb is_beof l).
+Proof. intros H. unfold copy_duplex, duplex_run. rewrite (copy_alive_gen l dst0 eq_refl eq_refl H). reflexivity. Qed.
+
+(* ssh-proxy: the client's end of input is passed on and the session goes on until the
+   backend's direction ends: everything the backend writes - also after the client's EOF -
+   reaches the client *)
+Lemma until_stop_backend_down l : forall c, sched_ok c false l ->
+  downs (until_stop StopOnBackend c false l) = downs l.
+Proof.
+  induction l as [|e r IH]; intros c H; [reflexivity|].
+  destruct e as [x| |x|]; cbn [sched_ok] in H; destruct H as [H1 H2]; cbn [until_stop stops_now].
+  - unfold downs in *. cbn [flat_map app]. apply (IH c H2).
+  - unfold downs in *. cbn [flat_map app]. apply (IH true H2).
+  - unfold downs in *. cbn [flat_map]. f_equal. apply (IH c H2).
+  - unfold downs. cbn [flat_map app]. symmetry. apply (sched_ok_bdone r c H2).
+Qed.
+
+Lemma ssh_duplex_down_complete l : sched_ok false false l -> d_down (ssh_duplex l) = downs l.
+Proof.
+  intros H. unfold ssh_duplex. destruct (duplex_spec StopOnBackend l) as [_ ->]. apply until_stop_backend_down, H.
+Qed.
+
+(* ... and the backend everything the client wrote before the backend's direction ended *)
 Fixpoint c_done_before_beof (l : list dev) : Prop :=
   match l with [] => True | DBEof :: r => ups r = [] | _ :: r => c_done_before_beof r end.
 
-(* copy: whatever the schedule - in particular when the client ends its direction first and
-   the backend answers afterwards, late, at length - the client receives everything the
-   backend wrote ... *)
-Lemma copy_down_complete l : b_quiet_after_eof l -> d_down (copy_duplex l) = downs l.
+Lemma until_stop_backend_up l : forall c, c_done_before_beof l ->
+  ups (until_stop StopOnBackend c false l) = ups l.
 Proof.
-  unfold copy_duplex. destruct (duplex_spec false true l) as [_ ->].
-  induction l as [|e r IH]; intros H; [reflexivity|].
-  destruct e; cbn [before_stop stops b_quiet_after_eof] in *.
-  - unfold downs in *. cbn [flat_map app]. apply IH, H.
-  - unfold downs in *. cbn [flat_map app]. apply IH, H.
-  - unfold downs in *. cbn [flat_map]. f_equal. apply IH, H.
-  - unfold downs in *. cbn [flat_map app]. symmetry. exact H.
+  induction l as [|e r IH]; intros c H; [reflexivity|].
+  destruct e as [x| |x|]; cbn [c_done_before_beof] in H; cbn [until_stop stops_now].
+  - unfold ups in *. cbn [flat_map]. f_equal. apply (IH c H).
+  - unfold ups in *. cbn [flat_map app]. apply (IH true H).
+  - unfold ups in *. cbn [flat_map app]. apply (IH c H).
+  - unfold ups. cbn [flat_map app]. symmetry. exact H.
 Qed.
 
-(* ... and the backend everything the client wrote before the backend ended its direction *)
-Lemma copy_up_complete l : c_done_before_beof l -> d_up (copy_duplex l) = ups l.
+Lemma ssh_duplex_up_complete l : c_done_before_beof l -> d_up (ssh_duplex l) = ups l.
 Proof.
-  unfold copy_duplex. destruct (duplex_spec false true l) as [-> _].
-  induction l as [|e r IH]; intros H; [reflexivity|].
-  destruct e; cbn [before_stop stops c_done_before_beof] in *.
-  - unfold ups in *. cbn [flat_map]. f_equal. apply IH, H.
-  - unfold ups in *. cbn [flat_map app]. apply IH, H.
-  - unfold ups in *. cbn [flat_map app]. apply IH, H.
-  - unfold ups in *. cbn [flat_map app]. symmetry. exact H.
+  intros H. unfold ssh_duplex. destruct (duplex_spec StopOnBackend l) as [-> _]. apply until_stop_backend_up, H.
 Qed.
-
-(* the client's end of stream reaches the backend while the relay goes on *)
-Lemma copy_forwards_half_close pre :
-  d_alive (fold_left (dstep false true) pre dst0) = true ->
-  let s := fold_left (dstep false true) (pre ++ [DCEof]) dst0 in d_alive s = true /\ d_beof s = true.
-Proof.
-  intros H. cbv zeta. rewrite fold_left_app. cbn [fold_left].
-  set (t := fold_left (dstep false true) pre dst0) in *. unfold dstep. rewrite H. split; reflexivity.
-Qed.
-
-(* defects of the unchanged code (the model is faithful to them) *)
-Lemma copy_client_data_after_backend_eof_refuted :
-  exists l, b_quiet_after_eof l /\ d_up (copy_duplex l) <> ups l.
-Proof. exists [DB [1]%N; DBEof; DC [2]%N; DCEof]. split; [reflexivity|]. vm_compute. discriminate. Qed.
-
-Lemma ssh_half_close_refuted :
-  exists l, b_quiet_after_eof l /\ d_down (ssh_duplex l) <> downs l.
-Proof. exists [DC [1]%N; DCEof; DB [2]%N; DBEof]. split; [reflexivity|]. vm_compute. discriminate. Qed.
 
 (* ------------------------------------------------------------------ *)
 (* concrete messages used as witnesses                                  *)
